@@ -67,7 +67,9 @@ class ErrorEstimator:
                 val[i] = self.slobodeckij.seminorm_h_1_2(
                     residual_t, *elem_left.space_interval,
                     elem_left.gamma_space)
-            elif elem_left.gamma_space is elem_right.gamma_space:
+            elif (elem_left.gamma_space is elem_right.gamma_space
+                  and elem_left.space_interval[1]
+                  == elem_right.space_interval[0]):
                 gamma = elem_left.gamma_space
                 assert np.allclose(gamma(elem_left.space_interval[1]),
                                    gamma(elem_right.space_interval[0]))
